@@ -693,6 +693,138 @@ fn rawext_ops(op: &str, a: &[&str]) -> Option<String> {
     })
 }
 
+// ------------------------------------------------------------------------------------------
+// Ipv4Extensions (optional authentication header)
+
+fn exts_fields(e: &Ipv4Extensions) -> String {
+    match &e.auth {
+        None => "auth=none".to_string(),
+        Some(h) => format!("auth=({})", auth_fields(h)),
+    }
+}
+
+fn exts_walk_err(e: &err::ipv4_exts::ExtsWalkError) -> String {
+    match e {
+        err::ipv4_exts::ExtsWalkError::ExtNotReferenced { missing_ext } => {
+            format!("err(notreferenced({}))", missing_ext.0)
+        }
+    }
+}
+
+fn exts_value(a: &[&str]) -> Option<Result<Ipv4Extensions, String>> {
+    if a.len() == 1 && a[0] == "none" {
+        return Some(Ok(Ipv4Extensions { auth: None }));
+    }
+    Some(match auth_value(a)? {
+        Err(e) => Err(e),
+        Ok(h) => Ok(Ipv4Extensions { auth: Some(h) }),
+    })
+}
+
+fn exts_write(e: &Ipv4Extensions, start: u8) -> Result<Vec<u8>, String> {
+    let mut w = Vec::new();
+    match e.write(&mut w, IpNumber(start)) {
+        Ok(()) => Ok(w),
+        Err(err::ipv4_exts::HeaderWriteError::Content(c)) => Err(exts_walk_err(&c)),
+        Err(err::ipv4_exts::HeaderWriteError::Io(_)) => Err("err(io)".to_string()),
+    }
+}
+
+fn exts_dec(start: u8, b: &[u8]) -> String {
+    match Ipv4Extensions::from_slice(IpNumber(start), b) {
+        Err(e) => auth_err(&e),
+        Ok((e, next, rest)) => format!(
+            "ok({},next={},rest={})",
+            exts_fields(&e),
+            next.0,
+            win(b, rest)
+        ),
+    }
+}
+
+fn exts_ops(op: &str, a: &[&str]) -> Option<String> {
+    let (start, a) = a.split_first()?;
+    let start: u8 = num(start)?;
+    Some(match op {
+        "enc.ipv4exts.write" => match exts_value(a)? {
+            Err(e) => e,
+            Ok(e) => {
+                let next = match e.next_header(IpNumber(start)) {
+                    Ok(n) => format!("ok({})", n.0),
+                    Err(x) => exts_walk_err(&x),
+                };
+                match exts_write(&e, start) {
+                    Err(x) => format!("{},len={},next={}", x, e.header_len(), next),
+                    Ok(bytes) => format!(
+                        "ok(bytes={},len={},next={})",
+                        to_hex(&bytes),
+                        e.header_len(),
+                        next
+                    ),
+                }
+            }
+        },
+        "enc.ipv4exts.rt" => {
+            let (tail, fields) = a.split_last()?;
+            let tail = hex(tail)?;
+            match exts_value(fields)? {
+                Err(e) => e,
+                Ok(e) => match exts_write(&e, start) {
+                    Err(x) => x,
+                    Ok(mut bytes) => {
+                        bytes.extend_from_slice(&tail);
+                        exts_dec(start, &bytes)
+                    }
+                },
+            }
+        }
+        "enc.ipv4exts.from_slice" => {
+            if a.len() != 1 {
+                return None;
+            }
+            exts_dec(start, &hex(a[0])?)
+        }
+        "enc.ipv4exts.redec" => {
+            if a.len() != 1 {
+                return None;
+            }
+            let b = hex(a[0])?;
+            match Ipv4Extensions::from_slice(IpNumber(start), &b) {
+                Err(e) => auth_err(&e),
+                Ok((e, _, rest)) => match exts_write(&e, start) {
+                    Err(x) => x,
+                    Ok(bytes) => {
+                        let mut again = bytes.clone();
+                        again.extend_from_slice(rest);
+                        format!("ok(bytes={},again={})", to_hex(&bytes), exts_dec(start, &again))
+                    }
+                },
+            }
+        }
+        "enc.ipv4extsslice.from_slice" => {
+            if a.len() != 1 {
+                return None;
+            }
+            let b = hex(a[0])?;
+            match Ipv4ExtensionsSlice::from_slice(IpNumber(start), &b) {
+                Err(e) => auth_err(&e),
+                Ok((s, next, rest)) => format!(
+                    "ok(auth={},empty={},next={},rest={},hdr=({}))",
+                    match &s.auth {
+                        None => "none".to_string(),
+                        Some(x) => win(&b, x.slice()),
+                    },
+                    b01(s.is_empty()),
+                    next.0,
+                    win(&b, rest),
+                    exts_fields(&s.to_header())
+                ),
+            }
+        }
+        _ => return None,
+    })
+}
+
 pub fn run(op: &str, a: &[&str]) -> Option<String> {
     let mut it = op.split('.');
     if it.next() != Some("enc") {
@@ -704,6 +836,7 @@ pub fn run(op: &str, a: &[&str]) -> Option<String> {
         "ipv4" | "ipv4slice" => ipv4_ops(op, a),
         "auth" | "authslice" => auth_ops(op, a),
         "rawext" | "rawextslice" => rawext_ops(op, a),
+        "ipv4exts" | "ipv4extsslice" => exts_ops(op, a),
         _ => None,
     }
 }
